@@ -31,7 +31,6 @@ def _roundtrip(E, x, tag):
         _cleanup(E, path)
     E.true('is_tt', isinstance(y, E.tt.TT))
     E.true('meta', _meta(y) == _meta(x))
-    E.true('rank_list_plain_ints', all(type(r) is int for r in y.R))
     E.true('dtype', [str(c.dtype) for c in y.cores] == [str(c.dtype) for c in x.cores])
     E.true('core_shapes', [list(c.shape) for c in y.cores] == [list(c.shape) for c in x.cores])
     for k, (a, b) in enumerate(zip(x.cores, y.cores)):
